@@ -2,6 +2,7 @@ import Model.Mle
 import Model.Generated.MleSite
 import Proofs.C12Final
 import Proofs.C12OptEx
+import Proofs.C12Sym
 import Mathlib.Analysis.Real.Sqrt
 import Mathlib.Analysis.SpecialFunctions.Log.Basic
 import Mathlib.Tactic.FinCases
@@ -31,10 +32,28 @@ transpose-symmetrised estimate (`optimal_vs_transpose`); `optimal_output` is the
 `r.T` returned by `run`.  The proof (`Proofs/C12Opt.lean`) is Jensen's inequality for `log`
 plus the Prinz equations; no uniqueness or convergence argument is needed.
 
+**Exact fixed point vs. "up to the convergence tolerance".**  `fixed_point_prinz`, `optimal`,
+`optimal_same_support`, `optimal_vs_transpose`, `optimal_output` are the `_partial` forms of
+the property's clauses: they speak about a state at which one more sweep changes *nothing*
+(aliases `fixed_point_prinz_partial`, `optimal_partial`, `optimal_output_partial`).  The full
+clause — every model returned by `run` with tolerance `tol` is within `f(tol)` of every
+competitor — is `def C12_optimal_returned_full`, **not asserted**.
+
 NOT proved: that the loop *reaches* a fixed point (convergence of the block coordinate ascent,
-hence "up to the convergence tolerance" for a state that is only nearly fixed) — examined
-numerically by the correspondence check; termination of the loop before `max_iter` (the
-property allows a warning); anything about floating-point rounding.
+hence `C12_optimal_returned_full`) — examined numerically by the correspondence check;
+termination of the loop before `max_iter` (the property allows a warning); anything about
+floating-point rounding.
+
+Correspondence-only clauses (no theorem; established by the differential run in
+`harness/props/c12.py` on every case): "the compiled and the pure-Python implementations
+agree" (there is one model, parametrised by the logarithm and the final assertions; each
+implementation is compared with its flavour and with the other), and the densify / estimate /
+re-wrap of sparse input in `builders.mle` (incl. inputs with un-summed repeated entries).
+
+Scope of the returns / validity theorems: `Conn` (every state has an outgoing and an incoming
+off-diagonal count) is implied by strong connectivity with ≥ 2 states
+(`conn_of_strongly_connected`) and is unsatisfiable for one state; the one-state chain
+`C = [[c]]` is covered separately by `one_state`.
 -/
 
 set_option linter.unusedSectionVars false
@@ -123,6 +142,17 @@ theorem fixed_point_prinz {sqrt log : K → K} (hs : SqrtSpec sqrt) {C : Mat K n
       have := pair_fixed_eq hs hD h j i ha' (hp j i hgt)
       rw [h.symm i j]
       linear_combination this
+
+/-- `_partial` alias: the self-consistency clause at an *exact* fixed point of the sweep -/
+theorem fixed_point_prinz_partial {sqrt log : K → K} (hs : SqrtSpec sqrt) {C : Mat K n}
+    {Crs : Vec K n} (hD : Data C Crs) {st : St K n} (h : Inv st) {q : St K n × K}
+    (hsw : sweep sqrt log C Crs st = .ok q) (hX : q.1.X = st.X) :
+    (∀ i, 0 < vget Crs i - mget C i i →
+      mget st.X i i * vget Crs i = mget C i i * vget st.rs i) ∧
+    (∀ i j, i ≠ j → coefA C Crs i j ≠ 0 →
+      (mget C i j + mget C j i) * vget st.rs i * vget st.rs j
+        = mget st.X i j * (vget Crs i * vget st.rs j + vget Crs j * vget st.rs i)) :=
+  fixed_point_prinz hs hD h hsw hX
 
 /-- In exact arithmetic the two final assertions are theorems: on a state satisfying the
 invariant with positive running row sums, `finish` returns the model or (cap reached and the
@@ -300,6 +330,19 @@ theorem returns_any_field {K : Type} [Field K] [LinearOrder K] [IsStrictOrderedR
              P.warnSwapped = Ens.Generated.MleSite.warnSwappedPyx)
     {C : Mat K n} (hC : ∀ i j, 0 ≤ mget C i j) (hc : Conn C) : ∃ r, run P C = .ok r := by
   apply (returns_partial hs hP hn hmax hC hc).2.2.1
+  rcases hsite with h | h
+  · rw [h]; exact site_is_fixed.1
+  · rw [h]; exact site_is_fixed.2
+
+/-- **One state** (`C = [[c]]`, `c > 0`), which `Conn` excludes: every sweep is the identity and
+the estimator returns `T = [[1]]`, `π = [1]` (any field, either implementation's call site). -/
+theorem one_state {K : Type} [Field K] [LinearOrder K] [IsStrictOrderedRing K]
+    {P : Params K} (hP : ParamsOK P) (hmax : 0 < P.maxIter)
+    (hsite : P.warnSwapped = Ens.Generated.MleSite.warnSwappedPy ∨
+             P.warnSwapped = Ens.Generated.MleSite.warnSwappedPyx)
+    {C : Mat K 1} (hc : 0 < mget C 0 0) :
+    ∃ r, run P C = .ok r ∧ mget r.T 0 0 = 1 ∧ vget r.pi 0 = 1 := by
+  apply run_one_state hP hmax _ hc
   rcases hsite with h | h
   · rw [h]; exact site_is_fixed.1
   · rw [h]; exact site_is_fixed.2
@@ -521,5 +564,81 @@ example : mget (symEstimate exC) 0 0 = 2 / 5 ∧ mget exSt.X 0 0 / vget exSt.rs 
   · simp only [symEstimate, mget_ofFn, Fin.sum_univ_two, exC_get]
     simp [exCf]; norm_num
   · rw [exX_get, exrs_get]; simp [exXf]
+
+/-! #### exact fixed point (`_partial`) vs. every returned model (full, not asserted) -/
+
+/-- `_partial` alias of `optimal`: optimality at an exact fixed point of the sweep -/
+theorem optimal_partial : C12_optimal := optimal
+
+/-- `_partial` alias of `optimal_output`: the returned `r.T` is optimal *if* one more sweep from
+the returned state changes nothing -/
+theorem optimal_output_partial {n : Nat} {P : Params ℝ} (hsq : P.sqrt = Real.sqrt)
+    (hP : ParamsOK P) (hn : 0 < n) (hmax : 0 < P.maxIter) {C : Mat ℝ n}
+    (hC : ∀ i j, 0 ≤ mget C i j) (hsc : StronglyConnected C) (h2 : ∀ i : Fin n, ∃ j, j ≠ i)
+    {r : Result ℝ n} (hr : run P C = .ok r)
+    {Crs : Vec ℝ n} {st0 : St ℝ n} (hinit : init C = .ok (Crs, st0)) {q : St ℝ n × ℝ}
+    (hsw : sweep Real.sqrt P.log C Crs { X := r.X, rs := r.rs } = .ok q) (hX : q.1.X = r.X)
+    (T' : Mat ℝ n) (π' : Vec ℝ n)
+    (hT0 : ∀ i j, 0 ≤ mget T' i j) (hT1 : ∀ i, ∑ j, mget T' i j = 1)
+    (hπ : ∀ i, 0 < vget π' i)
+    (hdb : ∀ i j, vget π' i * mget T' i j = vget π' j * mget T' j i)
+    (hsupp : ∀ i j, 0 < mget C i j → 0 < mget T' i j) :
+    logLik C T' ≤ logLik C r.T :=
+  optimal_output hsq hP hn hmax hC hsc h2 hr hinit hsw hX T' π' hT0 hT1 hπ hdb hsupp
+
+/-- **Full clause of the property — NOT proved, never asserted.**  For *every* model `r` that
+`run` returns without the convergence warning (the loop stopped because the change of its
+pseudo log-likelihood fell below `P.tol`, not at an exact fixed point), the log-likelihood of
+`r.T` is within `f P.tol` of that of every reversible row-stochastic competitor of finite
+likelihood, for a modulus `f` with `f t → 0` as `t → 0` that may depend on the counts.
+Missing: a quantitative convergence statement for the block coordinate ascent (how far a state
+whose sweep changes the pseudo log-likelihood by ≤ tol is from the fixed point), and the
+relation between the code's pseudo log-likelihood and the true one.  Examined numerically by
+the correspondence check (likelihood dominance with tolerance `1e-7·(1+|L|)`). -/
+def C12_optimal_returned_full (f : ∀ {n : Nat}, Mat ℝ n → ℝ → ℝ) : Prop :=
+  (∀ (n : Nat) (C : Mat ℝ n) (ε : ℝ), 0 < ε → ∃ δ, 0 < δ ∧ ∀ t, 0 ≤ t → t < δ → f C t < ε) ∧
+  ∀ (n : Nat) (P : Params ℝ) (C : Mat ℝ n) (r : Result ℝ n),
+    P.sqrt = Real.sqrt → P.log = Real.log → ParamsOK P → 0 < n → 0 < P.maxIter → 0 ≤ P.tol →
+    (∀ i j, 0 ≤ mget C i j) → StronglyConnected C → (∀ i : Fin n, ∃ j, j ≠ i) →
+    run P C = .ok r → r.warned = false →
+    ∀ (T' : Mat ℝ n) (π' : Vec ℝ n),
+      (∀ i j, 0 ≤ mget T' i j) → (∀ i, ∑ j, mget T' i j = 1) →
+      (∀ i, 0 < vget π' i) → (∀ i j, vget π' i * mget T' i j = vget π' j * mget T' j i) →
+      (∀ i j, 0 < mget C i j → 0 < mget T' i j) →
+      logLik C T' ≤ logLik C r.T + f C P.tol
+
+/-! #### non-vacuity of `optimal_output`: a symmetric count matrix
+
+For the symmetric `sym2 = [[1,1],[1,1]]` the initial state `X = C + Cᵀ` is already a fixed point
+of the sweep (`sym2_fixed`), so `run` returns it (`run_of_fixed_init`), whatever the tolerance;
+every hypothesis of `optimal_output` holds for the model that `run` returns. -/
+
+theorem sym2_strongly_connected : StronglyConnected sym2 := by
+  intro i j
+  apply Relation.TransGen.single
+  unfold edge
+  rw [sym2_get]; norm_num
+
+example (P : Params ℝ) (hsq : P.sqrt = Real.sqrt) (hP : ParamsOK P) (hmax : 0 < P.maxIter)
+    (hw : P.warnSwapped = false) :
+    ∃ (r : Result ℝ 2) (Crs : Vec ℝ 2) (st0 : St ℝ 2) (q : St ℝ 2 × ℝ),
+      run P sym2 = .ok r ∧ init sym2 = .ok (Crs, st0) ∧
+      sweep Real.sqrt P.log sym2 Crs { X := r.X, rs := r.rs } = .ok q ∧ q.1.X = r.X ∧
+      (∀ i j, 0 ≤ mget sym2 i j) ∧ StronglyConnected sym2 ∧ (∀ i : Fin 2, ∃ j, j ≠ i) := by
+  have hC : ∀ i j, 0 ≤ mget sym2 i j := fun i j => by rw [sym2_get]; norm_num
+  have h2 : ∀ i : Fin 2, ∃ j, j ≠ i := fun i => by
+    fin_cases i <;> [exact ⟨1, by decide⟩; exact ⟨0, by decide⟩]
+  have hc : Conn sym2 := conn_of_strongly_connected sym2 sym2_strongly_connected h2
+  obtain ⟨Crs, st0, hinit⟩ := conn_init hC hc
+  obtain ⟨_, hinv, hrs, _⟩ := init_inv hC hinit
+  obtain ⟨l, hl⟩ := sym2_fixed P.log hinit
+  obtain ⟨k, _, hrun⟩ := run_of_fixed_init (P := P) hmax hinit (by rw [hsq]; exact ⟨l, hl⟩)
+  rcases finish_spec hP (by decide : 0 < 2) hinv hrs k with ⟨_, hw', _⟩ | ⟨_, r, hr, hv⟩
+  · rw [hw] at hw'; cases hw'
+  · refine ⟨r, Crs, st0, (st0, l), by rw [hrun]; exact hr, hinit, ?_, ?_, hC,
+      sym2_strongly_connected, h2⟩
+    · have : ({ X := r.X, rs := r.rs } : St ℝ 2) = st0 := by rw [hv.X, hv.rs]
+      rw [this]; exact hl
+    · exact hv.X.symm
 
 end C12
